@@ -288,6 +288,7 @@ pub fn batch_json(ctx: &Ctx, scenario: &str, b: &Batch, extra: Vec<(&str, String
         ("max_key_file", b.cov.max_key_file.to_string()),
         ("max_val_file", b.cov.max_val_file.to_string()),
         ("impl_panics", b.cov.panics.to_string()),
+        ("model_branches", map_u64(&b.cov.model_branches)),
         ("samples", arr(&b.samples.iter().map(|s| esc(s)).collect::<Vec<_>>())),
         (
             "failures",
